@@ -2,7 +2,7 @@
    on the kernel model. PARTIAL: the statements proved so far are the two mechanisms the property rests on;
    the trace-level statement "no user message is handled between a failure and the decision" is checked on every
    run by the lockstep harness and its monitor (C04:user-message-before-decision) but not yet proved. *)
-From MV Require Import Lib.ListX Kernel.Model Kernel.Run Kernel.Lifecycle.
+From MV Require Import Lib.ListX Kernel.Model Kernel.Run Kernel.Lifecycle Kernel.Status Kernel.Registry Kernel.Suspend.
 Open Scope Z_scope.
 
 (* a suspended mailbox never hands a user message to the actor: with nothing in flight, the runner of a
@@ -12,6 +12,27 @@ Theorem C04_suspended_pops_no_user_partial : forall a,
   match a_inflight (pop1 a) with Some (MU _) => False | _ => True end.
 Proof. exact suspended_pops_no_user. Qed.
 Print Assumptions C04_suspended_pops_no_user_partial.
+
+(* Mechanism of "handles no further user message until its supervisor has decided", for every role table, every run
+   from the freshly started system and every following step: an actor (other than the two system actors) whose
+   mailbox is suspended is still suspended after the step, UNLESS the step's observations show one of the three
+   things that legitimately lift a suspension: a supervisor applying the Resume directive to that address
+   (ODec _ t DResume _), an actor with that address completing its restart (its own OnTerminated, OH t _ TTS) or an
+   actor with that address starting to terminate (OH t _ TT; from then on user messages become dead letters).
+   Nothing else — no send, spawn, watch, failure of another actor, restart or stop of another address, timer —
+   resumes it. Uses the registry invariant (an address resolves to an object carrying that address). *)
+Theorem C04_suspension_lifted_only_by_directive : forall roles ls s os l s' o u a,
+  krun roles kinit ls = Some (s, os) ->
+  get s u = Some a -> is_sys (a_tok a) = false -> a_susp a = true -> kstep roles s l = Some (s', o) ->
+  (exists a', get s' u = Some a' /\ a_tok a' = a_tok a /\ a_susp a' = true) \/ marker (a_tok a) o = true.
+Proof. exact suspension_lifted_only_by_directive_reachable. Qed.
+Print Assumptions C04_suspension_lifted_only_by_directive.
+
+(* registry well-formedness in every reachable state (used above; also the basis of C12's kernel-level reading) *)
+Theorem C04_registry_wellformed : forall roles ls s os,
+  krun roles kinit ls = Some (s, os) -> forall t u, lookup t (registry s) = Some u -> exists a, get s u = Some a /\ a_tok a = t.
+Proof. intros roles ls s os H. eapply RI_reachable; [apply RI_init|exact H]. Qed.
+Print Assumptions C04_registry_wellformed.
 
 (* the scripted scenario of the DESIGN probe: B fails on message 2 while message 3 is already queued;
    in the model (= repaired code) message 3 is handled only after the supervisor's Resume decision *)
